@@ -898,6 +898,31 @@ enum VOp {
     Take(usize, usize),
     Swap(usize, usize),
     Drop(usize),
+    SClone(usize, usize),
+    SAdd(usize, usize),
+    SMul(usize, usize),
+}
+
+// values backed by `static` word arrays (what the static_ubig!/ubig! macros generate): they are
+// never dropped or mutated, only read through shared references
+static SW0: [Word; 1] = [7];
+static SW1: [Word; 2] = [5, 9];
+static SW2: [Word; 3] = [1, 2, 3];
+static SW3: [Word; 5] = [Word::MAX, 0, 0, 0, 1];
+// SAFETY: top words are non-zero; the statics are never dropped
+static S0: UBig = unsafe { UBig::from_static_words(&SW0) };
+static S1: UBig = unsafe { UBig::from_static_words(&SW1) };
+static S2: UBig = unsafe { UBig::from_static_words(&SW2) };
+static S3: UBig = unsafe { UBig::from_static_words(&SW3) };
+
+fn static_val(i: usize) -> Option<&'static UBig> {
+    match i {
+        0 => Some(&S0),
+        1 => Some(&S1),
+        2 => Some(&S2),
+        3 => Some(&S3),
+        _ => None,
+    }
 }
 
 fn valid_hexint(s: &str) -> bool {
@@ -947,6 +972,9 @@ fn parse_vop(tok: &str) -> VOp {
             ["take", k, a] => VOp::Take(p_reg(k)?, p_reg(a)?),
             ["swap", k, a] => VOp::Swap(p_reg(k)?, p_reg(a)?),
             ["drop", k] => VOp::Drop(p_reg(k)?),
+            ["sclone", k, i] => VOp::SClone(p_reg(k)?, p_nat(i)?),
+            ["sadd", k, i] => VOp::SAdd(p_reg(k)?, p_nat(i)?),
+            ["smul", k, i] => VOp::SMul(p_reg(k)?, p_nat(i)?),
             _ => return None,
         })
     }
@@ -1299,6 +1327,28 @@ fn exec_vop(regs: &mut VRegs, op: &VOp) -> VStep {
             run!(k, {
                 let (lo, hi) = regs.split_at_mut(k.max(a));
                 std::mem::swap(lo[k.min(a)].as_mut().unwrap(), hi[0].as_mut().unwrap());
+            })
+        }
+        VOp::SClone(k, i) => {
+            let k = *k;
+            let sv = match static_val(*i) {
+                Some(v) if k < R => v,
+                _ => return VStep::Bad,
+            };
+            run!(k, {
+                regs[k] = Some(IBig::from(sv.clone()));
+            })
+        }
+        VOp::SAdd(k, i) | VOp::SMul(k, i) => {
+            let k = *k;
+            let sv = match static_val(*i) {
+                Some(v) if has(regs, k) => v,
+                _ => return VStep::Bad,
+            };
+            let mul = matches!(op, VOp::SMul(..));
+            run!(k, {
+                let x = regs[k].take().unwrap();
+                regs[k] = Some(if mul { x * sv } else { x + sv });
             })
         }
         VOp::Drop(k) => {
